@@ -128,6 +128,37 @@ theorem C11_duality_number (mode : Mode) (cs : List (Comp α)) (hne : cs ≠ [])
     rw [x_eq]
     field_simp
 
+/-- The `avg` row (not part of the property's text, modelled for the correspondence): without
+    weights it is the plain mean, i.e. `100 / k` for `k` listed components of the full table. -/
+theorem C11_avg_plain (mode : Mode) (cs : List (Comp α)) (hne : cs ≠ []) (h : Pos cs) :
+    avgRow false mode cs (List.replicate cs.length true) = (100 / (cs.length : α), 100 / (cs.length : α)) := by
+  have e1 : select (List.replicate cs.length true) (xs mode cs) = xs mode cs := by
+    have := select_all (xs mode cs); simpa [xs] using this
+  have e2 : select (List.replicate cs.length true) (Xs mode cs) = Xs mode cs := by
+    have := select_all (Xs mode cs); simpa [Xs] using this
+  simp only [avgRow, Bool.false_and, e1, e2, avgPlain, sum_xs mode cs hne h, sum_Xs mode cs hne h]
+  simp [xs, Xs]
+
+/-- … and for a NUMBER composite with `weight=True` (a `Substance`) it is the column sum divided
+    by the total amount: `100 / Σ p_i`. -/
+theorem C11_avg_weighted (cs : List (Comp α)) (hne : cs ≠ []) (h : Pos cs) :
+    avgRow true .number cs (List.replicate cs.length true) =
+      (100 / (cs.map (·.p)).sum, 100 / (cs.map (·.p)).sum) := by
+  have e1 : select (List.replicate cs.length true) (xs .number cs) = xs .number cs := by
+    have := select_all (xs .number cs); simpa [xs] using this
+  have e2 : select (List.replicate cs.length true) (Xs .number cs) = Xs .number cs := by
+    have := select_all (Xs .number cs); simpa [Xs] using this
+  have e3 : select (List.replicate cs.length true) (weightsOf .number cs) = cs.map (·.p) := by
+    have := select_all (weightsOf .number cs); simpa [weightsOf] using this
+  have hw : ∀ w ∈ cs.map (·.p), w ≠ 0 := by
+    intro w hw
+    simp only [List.mem_map] at hw
+    obtain ⟨c, hc, rfl⟩ := hw
+    exact (h c hc).1.ne'
+  simp only [avgRow, Bool.true_and, beq_self_eq_true, if_true, e1, e2, e3]
+  rw [avgWeighted_eq _ _ (by simp [xs]) hw, avgWeighted_eq _ _ (by simp [Xs]) hw,
+    sum_xs .number cs hne h, sum_Xs .number cs hne h]
+
 /-! Non-vacuity: the hypotheses are satisfied by a concrete two-component mixture over `ℚ`
     (water 0.2, salt 0.3 with rounded masses), for which the columns are not trivial. -/
 def exMix : List (Comp Rat) := [⟨1/5, 18⟩, ⟨3/10, 58⟩]
